@@ -281,6 +281,22 @@ theorem reopen_clock_dominates (s : State) (hp : s.cfg.memoryOnly = false) (ttlO
         · right; exact Nat.le_trans (by omega) (h2 _)
         · exact h3 ke hke'
 
+/-! ### the statement without its hypotheses is false — of the model and of the code alike
+(known findings F1 and F2; the same histories are replayed on the implementation by the check) -/
+
+/-- **F1**: an accepted explicit timestamp `u64::MAX - 1` removes the shard's headroom: the second
+automatic write after it is rejected as older -/
+theorem F1_witness :
+    (run {} [.insert [1] [1] (some (U64MAX - 1)) 0 false 0 100, .insert [1] [2] none 0 false 0 200,
+      .insert [1] [3] none 0 false 0 300]).2 = [.okBool true, .okBool false, .err .OlderTimestamp] := by decide
+
+/-- **F2**: a delete's explicit timestamp leaves no trace on disk: after a reopen an automatic write
+gets a version below it, so an older explicit write (`F+5 < F+10`) is accepted on top -/
+theorem F2_witness :
+    (run { cfg := { memoryOnly := false } } [.insert [2] [1] (some 5000) 0 false 0 100, .delete [2] (some 5010) 0 200,
+      .reopen false 300 [], .insert [2] [2] none 0 false 0 400, .insert [2] [3] (some 5005) 0 false 0 500]).2 =
+      [.okBool true, .okUnit, .okUnit, .okBool true, .okBool false] := by decide
+
 /-! ### non-vacuity -/
 
 example : (run {} [.insert [1] [7] (some 5000) 0 false 3 100, .insert [1] [8] none 0 false 3 200,
